@@ -3,11 +3,11 @@
 package main
 
 import (
-	"runtime/debug"
 	"encoding/json"
 	"fmt"
 	"math/rand"
 	"os"
+	"runtime/debug"
 	"time"
 
 	fpgo "github.com/TeaEntityLab/fpGo/v2"
@@ -424,6 +424,33 @@ func c06Record(args []string) error {
 							break
 						}
 					}
+				}
+			}
+			rc.leaves++
+		}
+		// a very large node pool (beyond any cap a pool might have), then ordinary traffic through both ends
+		for _, keep := range []int{1000, 20000, 70000} {
+			q := fpgo.NewLinkedListQueue[int]()
+			var kpath []llqEvent
+			script := []llqOp{{Op: "KeepNodePoolCount", Arg: keep}}
+			for i := 0; i < 6; i++ {
+				script = append(script, llqOp{Op: "Offer"})
+			}
+			for _, o := range []string{"Shift", "Pop", "Peek", "Unshift", "Poll", "Take", "KeepNodePoolCount", "Offer", "Shift", "Shift", "Pop", "Pop", "Pop", "Poll", "Count"} {
+				script = append(script, llqOp{Op: o, Arg: keep})
+			}
+			for i, o := range script {
+				d := i + 1
+				if o.Op != "KeepNodePoolCount" {
+					o.Arg = d
+				}
+				kk, dd := keep, d
+				wdSet(func() string { return fmt.Sprintf("bulk keep=%d step %d", kk, dd) })
+				e := llqObserve(q, d, o)
+				rc.emit(kpath, e)
+				kpath = append(kpath, e)
+				if e.R.K == "panic" || e.Peek.K == "panic" {
+					break
 				}
 			}
 			rc.leaves++
